@@ -76,6 +76,7 @@ func configureEngine(e *sym.Engine) {
 	e.Natives["go/types.NewMethodSet"] = types.NewMethodSet
 	e.Natives["go/types.TypeString"] = types.TypeString
 	e.Natives["go/types.Universe"] = reflect.ValueOf(&types.Universe)
+	e.Natives["go/types.Typ"] = reflect.ValueOf(&types.Typ)
 	e.Natives["go/types.NewPointer"] = types.NewPointer
 	e.Natives["go/types.Unalias"] = types.Unalias
 	e.Natives["go/parser.ParseFile"] = parser.ParseFile
